@@ -130,4 +130,239 @@ def jobs(tier):
           replay=MK_RHS_R + '  smt_rational v = view(b); smt_rational *rhs = &v; bool r = %s(b); bool want = (%s); ok = r == want; observed = std::to_string(r); required = std::to_string(want) + " for %s(" + show(b) + ")";\n' % (p, e, p))
     J('numerator', 'smt_rational_numerator', Contract(requires=[FRESH_SELF], ensures=[('value', '__CPROVER_return_value == self->num')], assigns=''))
     J('denominator', 'smt_rational_denominator', Contract(requires=[FRESH_SELF], ensures=[('value', '__CPROVER_return_value == self->den')], assigns=''))
+    # composite (component-wise) operations: one magnitude step below the kernel in the quick tier
+    Wi, bi = (W - 1, 8) if tier == 'quick' else (W, bits)
+    inf_jobs(out, tier, dict(defines, SPEC_W=Wi, I_BITS=bi), unwind, bounded.replace('2^%d' % W, '2^%d' % Wi).replace('width %d' % bits, 'width %d' % bi))
+    lin_jobs(out, tier, defines, unwind, bounded)
     return out
+
+
+# ================================================================================================ inf_rational
+INF_TUS = ['/verif/stubs/tu/inf_rational.cpp', 'smt/arith/rational.cpp']
+ISPEC = ['infrat_spec.h']
+REC_ISELF = 'xt_rec(0, self->rat.num) && xt_rec(1, self->rat.den) && xt_rec(8, self->inf.num) && xt_rec(9, self->inf.den)'
+REC_IRHS = 'xt_rec(2, rhs->rat.num) && xt_rec(3, rhs->rat.den) && xt_rec(10, rhs->inf.num) && xt_rec(11, rhs->inf.den)'
+REC_LHS_R = 'xt_rec(12, lhs->num) && xt_rec(13, lhs->den)'
+WFI_SELF = 'in_range_inf(*self) && wf_inf(*self)'
+WFI_RHS = 'in_range_inf(*rhs) && wf_inf(*rhs)'
+MK_ISELF = '  smt::inf_rational a = mk_inf(S[0], S[1], S[8], S[9]);\n'
+MK_IRHS = '  smt::inf_rational b = mk_inf(S[2], S[3], S[10], S[11]);\n'
+
+
+def inf_jobs(out, tier, defines, unwind, bounded):
+    def J(name, target, contract, replay=None, known=(), **kw):
+        out.append(Job('inf_rational.' + name, target, tus=INF_TUS, contract=contract, defines=defines, unwind=unwind, spec_headers=ISPEC,
+                       replay=rat_replay(replay) if replay else None, known=known, bounded=bounded, timeout=1800, **kw))
+
+    # rhs kinds: (suffix, fresh, rec, range+wf, view-as-inf expr, view-as-rat expr, replay decl, replay view-as-inf, replay show)
+    RH = {
+        'inf_rational': (FRESH_RHS, REC_IRHS, WFI_RHS, '(*rhs)', None, MK_IRHS, 'view(b)', 'show(b)'),
+        'rational': (FRESH_RHS, REC_RHS_R, WF_RHS, 'sp_inf_of_rat(*rhs)', '(*rhs)', MK_RHS_R, 'sp_inf_of_rat(view(b))', 'show(b)'),
+        'I': (FRESH_RHS, REC_RHS_I, 'in_range_I(*rhs)', 'sp_inf_of_int(*rhs)', 'sp_of_int(*rhs)', '  long b = S[4];\n', 'sp_inf_of_int(b)', 'std::to_string(b)'),
+    }
+    for op, c in CMP.items():
+        for suf, (fr, rec, wf, vinf, vrat, mk, rvinf, rshow) in RH.items():
+            J('op_%s__%s' % (op, suf), 'smt_inf_rational_op_%s__%s' % (op, suf),
+              Contract(requires=[FRESH_SELF + ' && ' + fr, REC_ISELF + ' && ' + rec, WFI_SELF, wf],
+                       ensures=[('order', '__CPROVER_return_value == (sp_cmp_inf(*self, %s) %s 0)' % (vinf, c))], assigns=''),
+              replay=MK_ISELF + mk + '  bool r = a %s b; bool want = sp_cmp_inf(view(a), %s) %s 0;\n  ok = (r == want); observed = std::to_string(r); required = std::to_string(want) + " for " + show(a) + " %s " + %s;\n' % (c, rvinf, c, c, rshow))
+
+    def both(rel, res, a, b_rat, b_inf):
+        return '%s(%s.rat, %s.rat, %s) && %s(%s.inf, %s.inf, %s)' % (rel, res, a, b_rat, rel, res, a, b_inf)
+
+    for op, c in CPPOP.items():
+        rel = REL[op]
+        additive = op in ('add', 'sub')
+        for suf, (fr, rec, wf, vinf, vrat, mk, rvinf, rshow) in RH.items():
+            if suf == 'inf_rational' and not additive:
+                continue      # inf_rational * inf_rational and / are not offered by the class
+            if suf == 'inf_rational':
+                pre = [undef(op, 'self->rat', 'rhs->rat')]
+                post = lambda res, old: both(rel, res, old, 'rhs->rat', 'rhs->inf')
+                rpost = lambda res, old: '%s(view(%s).rat, view(%s).rat, view(b).rat) && %s(view(%s).inf, view(%s).inf, view(b).inf)' % (rel, res, old, rel, res, old)
+            elif additive:
+                pre = [undef(op, 'self->rat', vrat)]
+                post = lambda res, old, vrat=vrat: '%s(%s.rat, %s.rat, %s) && sp_rat_identical(%s.inf, %s.inf)' % (rel, res, old, vrat, res, old)
+                rv = 'view(b)' if suf == 'rational' else 'sp_of_int(b)'
+                rpost = lambda res, old, rv=rv: '%s(view(%s).rat, view(%s).rat, %s) && sp_rat_identical(view(%s).inf, view(%s).inf)' % (rel, res, old, rv, res, old)
+            else:
+                pre = [undef(op, 'self->rat', vrat), undef(op, 'self->inf', vrat)]
+                post = lambda res, old, vrat=vrat: both(rel, res, old, vrat, vrat)
+                rv = 'view(b)' if suf == 'rational' else 'sp_of_int(b)'
+                rpost = lambda res, old, rv=rv: '%s(view(%s).rat, view(%s).rat, %s) && %s(view(%s).inf, view(%s).inf, %s)' % (rel, res, old, rv, rel, res, old, rv)
+            J('op_%s__%s' % (op, suf), 'smt_inf_rational_op_%s__%s' % (op, suf),
+              Contract(requires=[FRESH_SELF + ' && ' + fr, REC_ISELF + ' && ' + rec, WFI_SELF, wf] + pre,
+                       ensures=[('canonical', 'wf_rat(__CPROVER_return_value.rat) && wf_rat(__CPROVER_return_value.inf)'),
+                                ('value', post('__CPROVER_return_value', '(*self)'))], assigns=''),
+              replay=MK_ISELF + mk + '  smt::inf_rational r = a %s b;\n  ok = wf_rat(view(r).rat) && wf_rat(view(r).inf) && %s; observed = show(r); required = show(a) + " %s " + %s + " component-wise";\n' % (c, rpost('r', 'a'), c, rshow))
+            J('op_%seq__%s' % (op, suf), 'smt_inf_rational_op_%seq__%s' % (op, suf),
+              Contract(requires=[FRESH_SELF + ' && ' + fr, REC_ISELF + ' && ' + rec, WFI_SELF, wf] + pre,
+                       ensures=[('canonical', 'wf_rat(self->rat) && wf_rat(self->inf)'),
+                                ('value', post('(*self)', '__CPROVER_old(*self)')), ('returns_self', '__CPROVER_return_value == self')],
+                       assigns='self->rat.num, self->rat.den, self->inf.num, self->inf.den'),
+              replay=MK_ISELF + mk + '  smt::inf_rational a0 = a; smt::inf_rational &rr = (a %s= b);\n  ok = wf_rat(view(a).rat) && wf_rat(view(a).inf) && &rr == &a && %s; observed = show(a); required = show(a0) + " %s= " + %s + " component-wise";\n' % (c, rpost('a', 'a0'), c, rshow))
+
+    # ---- friends:  (rational | I) op inf_rational
+    LH = {'rational': (FRESH_LHS, REC_LHS_R, 'in_range(*lhs) && wf_rat(*lhs) && !sp_is_inf(*lhs)', '(*lhs)', '  smt::rational a = mk_rat(S[12], S[13]);\n', 'view(a)', 'show(a)'),
+          'I': (FRESH_LHS, REC_LHS_I, 'in_range_I(*lhs)', 'sp_of_int(*lhs)', '  long a = S[5];\n', 'sp_of_int(a)', 'std::to_string(a)')}
+    for suf, (fl, rec, wf, vl, mk, rvl, lshow) in LH.items():
+        R = '__CPROVER_return_value'
+        posts = {
+            'add': ('rat_is_sum(%s.rat, %s, rhs->rat) && sp_rat_identical(%s.inf, rhs->inf)' % (R, vl, R), [undef('add', vl, 'rhs->rat')],
+                    'rat_is_sum(view(r).rat, %s, view(b).rat) && sp_rat_identical(view(r).inf, view(b).inf)' % rvl),
+            'sub': ('rat_is_diff(%s.rat, %s, rhs->rat) && sp_rat_identical(%s.inf, sp_neg(rhs->inf))' % (R, vl, R), [undef('sub', vl, 'rhs->rat')],
+                    'rat_is_diff(view(r).rat, %s, view(b).rat) && sp_rat_identical(view(r).inf, sp_neg(view(b).inf))' % rvl),
+            'mul': ('rat_is_prod(%s.rat, %s, rhs->rat) && rat_is_prod(%s.inf, %s, rhs->inf)' % (R, vl, R, vl), [undef('mul', vl, 'rhs->rat')],
+                    'rat_is_prod(view(r).rat, %s, view(b).rat) && rat_is_prod(view(r).inf, %s, view(b).inf)' % (rvl, rvl)),
+            # c / (a + b*eps) = c/a - (c*b/a^2) eps to first order; exactly c/a + 0 eps when b == 0
+            'div': ('rat_is_quot(%s.rat, %s, rhs->rat) && sp_is_recip_inf_part(%s.inf, %s, rhs->rat, rhs->inf)' % (R, vl, R, vl),
+                    ['!sp_is_inf(rhs->rat) && rhs->rat.num != 0'],
+                    'rat_is_quot(view(r).rat, %s, view(b).rat) && sp_is_recip_inf_part(view(r).inf, %s, view(b).rat, view(b).inf)' % (rvl, rvl)),
+        }
+        for op, c in CPPOP.items():
+            post, pre, rpost = posts[op]
+            J('op_%s__%s__inf_rational' % (op, suf), 'smt_op_%s__%s__inf_rational' % (op, suf),
+              Contract(requires=[fl + ' && ' + FRESH_RHS, rec + ' && ' + REC_IRHS, wf, WFI_RHS] + pre,
+                       ensures=[('canonical', 'wf_rat(%s.rat) && wf_rat(%s.inf)' % (R, R)), ('value', post)], assigns=''),
+              replay=mk + MK_IRHS + '  smt::inf_rational r = a %s b;\n  ok = wf_rat(view(r).rat) && wf_rat(view(r).inf) && %s; observed = show(r); required = %s + " %s (" + show(b) + ") exactly";\n' % (c, rpost, lshow, c))
+
+    J('op_neg', 'smt_inf_rational_op_sub',
+      Contract(requires=[FRESH_SELF, REC_ISELF, WFI_SELF],
+               ensures=[('value', 'sp_rat_identical(__CPROVER_return_value.rat, sp_neg(self->rat)) && sp_rat_identical(__CPROVER_return_value.inf, sp_neg(self->inf))')], assigns=''),
+      replay=MK_ISELF + '  smt::inf_rational r = -a; ok = sp_rat_identical(view(r).rat, sp_neg(view(a).rat)) && sp_rat_identical(view(r).inf, sp_neg(view(a).inf)); observed = show(r); required = "-(" + show(a) + ")";\n')
+
+    # ---- constructors and accessors
+    R = '__CPROVER_return_value'
+    J('ctor__I', 'smt_inf_rational_ctor__I', Contract(requires=['in_range_I(nun)'], ensures=[('value', '%s.rat.num == nun && %s.rat.den == 1 && %s.inf.num == 0 && %s.inf.den == 1' % (R, R, R, R))], assigns=''))
+    J('ctor__I__I', 'smt_inf_rational_ctor__I__I',
+      Contract(requires=['in_range_I(nun) && in_range_I(den)', '!(nun == 0 && den == 0)'],
+               ensures=[('value', 'wf_rat(%s.rat) && sp_is_frac(%s.rat, nun, den) && %s.inf.num == 0 && %s.inf.den == 1' % (R, R, R, R))], assigns=''))
+    J('ctor__rational', 'smt_inf_rational_ctor__rational',
+      Contract(requires=['__CPROVER_is_fresh(rat, sizeof(*rat))'], ensures=[('value', 'sp_rat_identical(%s.rat, *rat) && %s.inf.num == 0 && %s.inf.den == 1' % (R, R, R))], assigns=''))
+    J('ctor__rational__I', 'smt_inf_rational_ctor__rational__I',
+      Contract(requires=['__CPROVER_is_fresh(rat, sizeof(*rat))', 'in_range_I(inf)'], ensures=[('value', 'sp_rat_identical(%s.rat, *rat) && %s.inf.num == inf && %s.inf.den == 1' % (R, R, R))], assigns=''))
+    J('ctor__rational__rational', 'smt_inf_rational_ctor__rational__rational',
+      Contract(requires=['__CPROVER_is_fresh(rat, sizeof(*rat)) && __CPROVER_is_fresh(inf, sizeof(*inf))'],
+               ensures=[('value', 'sp_rat_identical(%s.rat, *rat) && sp_rat_identical(%s.inf, *inf)' % (R, R))], assigns=''))
+    J('get_rational', 'smt_inf_rational_get_rational', Contract(requires=[FRESH_SELF], ensures=[('value', 'sp_rat_identical(%s, self->rat)' % R)], assigns=''))
+    J('get_infinitesimal', 'smt_inf_rational_get_infinitesimal', Contract(requires=[FRESH_SELF], ensures=[('value', 'sp_rat_identical(%s, self->inf)' % R)], assigns=''))
+    zero = 'sp_inf_of_int(0)'
+    preds = {'is_zero': 'sp_cmp_inf(*rhs, %s) == 0' % zero, 'is_positive': 'sp_cmp_inf(*rhs, %s) > 0' % zero,
+             'is_positive_or_zero': 'sp_cmp_inf(*rhs, %s) >= 0' % zero, 'is_negative': 'sp_cmp_inf(*rhs, %s) < 0' % zero,
+             'is_negative_or_zero': 'sp_cmp_inf(*rhs, %s) <= 0' % zero, 'is_infinite': 'sp_is_inf(rhs->rat)',
+             'is_positive_infinite': 'sp_is_pinf(rhs->rat)', 'is_negative_infinite': 'sp_is_ninf(rhs->rat)'}
+    for p, e in preds.items():
+        J(p, 'smt_%s__inf_rational' % p,
+          Contract(requires=[FRESH_RHS, REC_IRHS, WFI_RHS], ensures=[('meaning', '__CPROVER_return_value == (%s)' % e)], assigns=''),
+          replay=MK_IRHS + '  smt_inf_rational v = view(b); smt_inf_rational *rhs = &v; bool r = %s(b); bool want = (%s); ok = r == want; observed = std::to_string(r); required = std::to_string(want) + " for %s(" + show(b) + ")";\n' % (p, e, p))
+
+
+# ================================================================================================ lin
+LIN_TUS = ['smt/arith/lin.cpp', 'smt/arith/rational.cpp']
+LSPEC = ['lin_spec.h']
+GHOST_V = 'U_t xt_gv;'
+HPRE = '  { U_t gv; xt_gv = gv; }'
+LR = '__CPROVER_return_value'
+
+
+def lin_jobs(out, tier, defines, unwind, bounded):
+    LMAX = 2 if tier == 'quick' else 3
+    Wl, bl = (2, 8) if tier == 'quick' else (3, 16)
+    ldef = dict(defines, LIN_MAX=LMAX, SPEC_W=Wl, I_BITS=bl, U_BITS=8)
+    bounded = 'operands |num|,den < 2^%d (machine width %d, overflow checks on); variable ids 8-bit' % (Wl, bl)
+    lb = bounded + '; lin operands with <= %d terms (map model capacity %d)' % (LMAX, 2 * LMAX)
+
+    def J(name, target, contract, replay=None, known=(), **kw):
+        out.append(Job('lin.' + name, target, tus=LIN_TUS, contract=contract, defines=ldef, unwind=(8 if tier == 'quick' else max(unwind, 2 * LMAX + 2)), spec_headers=LSPEC,
+                       replay=rat_replay(replay) if replay else None, known=known, bounded=lb, timeout=3000, exceptions=True,
+                       caps={'map': 2 * LMAX}, ghost=GHOST_V, harness_pre=HPRE, **kw))
+
+    FR_SELF = '__CPROVER_is_fresh(self, sizeof(*self))'
+    FR_RIGHT = '__CPROVER_is_fresh(right, sizeof(*right))'
+    WFL_SELF = 'lin_shape(*self) && in_range_lin(*self) && wf_lin(*self)'
+    REC_GV = 'xt_recu(90, (unsigned long)xt_gv)'
+    NOEXC = ('noexcept', '__exc == 0')
+    MKA, MKB = '  smt::lin a = mk_lin(100);\n', '  smt::lin b = mk_lin(130);\n'
+    MKR = '  smt::rational b = mk_rat(S[2], S[3]);\n'
+
+    def coeffwise(rel, res, a, b, b_is_lin):
+        bc = 'sp_coeff(%s, xt_gv)' % b if b_is_lin else b
+        bk = '%s.known_term' % b if b_is_lin else b
+        return [('coefficient', '%s(sp_coeff2(%s, xt_gv), sp_coeff(%s, xt_gv), %s)' % (rel, res, a, bc)),
+                ('constant_term', '%s(%s.known_term, %s.known_term, %s)' % (rel, res, a, bk))]
+
+    # ---- lin (+|-) lin, binary and compound
+    for op, c in (('add', '+'), ('sub', '-')):
+        rel = REL[op]
+        pre = [FR_SELF + ' && ' + FR_RIGHT, '__exc == 0', 'lin_shape(*self) && lin_shape(*right)', 'in_range_lin(*self) && in_range_lin(*right)', 'wf_lin(*self) && wf_lin(*right)',
+               'sp_lin_rec(100, *self) && sp_lin_rec(130, *right) && ' + REC_GV]
+        rchk = ('lin_coeffs_wf(RES) && lin_all_vars(RES, a0, b, [&](smt::var v) { return %s(view(coeff(RES, v)), view(coeff(a0, v)), view(coeff(b, v))); }) && '
+                '%s(view(RES.known_term), view(a0.known_term), view(b.known_term))' % (rel, rel))
+        J('op_%s__lin' % op, 'smt_lin_op_%s__lin' % op,
+          Contract(requires=pre, ensures=[NOEXC, ('wf', 'wf_lin_res(%s, %d)' % (LR, 2 * LMAX))] + coeffwise(rel, LR, '(*self)', '(*right)', True), assigns='__exc'),
+          replay=MKA + MKB + '  smt::lin a0 = a; smt::lin r = a %s b;\n  ok = %s; observed = show(r); required = "(" + show(a) + ") %s (" + show(b) + ") coefficient-wise";\n' % (c, rchk.replace('RES', 'r'), c))
+        J('op_%seq__lin' % op, 'smt_lin_op_%seq__lin' % op,
+          Contract(requires=pre, ensures=[NOEXC, ('wf', 'wf_lin_res(*self, %d)' % (2 * LMAX))] + coeffwise(rel, '(*self)', '__CPROVER_old(*self)', '(*right)', True) +
+                   [('returns_copy', 'sp_rat_identical(sp_coeff2(%s, xt_gv), sp_coeff2(*self, xt_gv)) && sp_rat_identical(%s.known_term, self->known_term)' % (LR, LR))],
+                   assigns='__exc, *self'),
+          replay=MKA + MKB + '  smt::lin a0 = a; a %s= b;\n  ok = %s; observed = show(a); required = "(" + show(a0) + ") %s= (" + show(b) + ") coefficient-wise";\n' % (c, rchk.replace('RES', 'a'), c))
+
+    # ---- lin op rational
+    for op, c in CPPOP.items():
+        rel = REL[op]
+        pre = [FR_SELF + ' && ' + FR_RIGHT, '__exc == 0', WFL_SELF, 'in_range(*right) && wf_rat(*right) && !sp_is_inf(*right)',
+               'sp_lin_rec(100, *self) && xt_rec(2, right->num) && xt_rec(3, right->den) && ' + REC_GV]
+        if op == 'div':
+            pre.append('right->num != 0')
+        if op in ('add', 'sub'):
+            post = lambda res, a: [('coefficient', 'sp_rat_identical(sp_coeff2(%s, xt_gv), sp_coeff(%s, xt_gv))' % (res, a)),
+                                   ('constant_term', '%s(%s.known_term, %s.known_term, *right)' % (rel, res, a))]
+            rchk = ('lin_coeffs_wf(RES) && lin_all_vars(RES, a0, a0, [&](smt::var v) { return coeff(RES, v) == coeff(a0, v); }) && %s(view(RES.known_term), view(a0.known_term), view(b))' % rel)
+        else:
+            post = lambda res, a: coeffwise(rel, res, a, '(*right)', False)
+            rchk = ('lin_coeffs_wf(RES) && lin_all_vars(RES, a0, a0, [&](smt::var v) { return %s(view(coeff(RES, v)), view(coeff(a0, v)), view(b)); }) && %s(view(RES.known_term), view(a0.known_term), view(b))' % (rel, rel))
+        J('op_%s__rational' % op, 'smt_lin_op_%s__rational' % op,
+          Contract(requires=pre, ensures=[NOEXC, ('wf', 'wf_lin_res(%s, %d)' % (LR, 2 * LMAX))] + post(LR, '(*self)'), assigns='__exc'),
+          replay=MKA + MKR + '  smt::lin a0 = a; smt::lin r = a %s b;\n  ok = %s; observed = show(r); required = "(" + show(a) + ") %s " + show(b) + " coefficient-wise";\n' % (c, rchk.replace('RES', 'r'), c))
+        J('op_%seq__rational' % op, 'smt_lin_op_%seq__rational' % op,
+          Contract(requires=pre, ensures=[NOEXC, ('wf', 'wf_lin_res(*self, %d)' % (2 * LMAX))] + post('(*self)', '__CPROVER_old(*self)') +
+                   [('returns_copy', 'sp_rat_identical(sp_coeff2(%s, xt_gv), sp_coeff2(*self, xt_gv)) && sp_rat_identical(%s.known_term, self->known_term)' % (LR, LR))],
+                   assigns='__exc, *self'),
+          replay=MKA + MKR + '  smt::lin a0 = a; a %s= b;\n  ok = %s; observed = show(a); required = "(" + show(a0) + ") %s= " + show(b) + " coefficient-wise";\n' % (c, rchk.replace('RES', 'a'), c))
+
+    # ---- rational op lin (friends): + - *
+    FR_LHS, FR_RHS = '__CPROVER_is_fresh(lhs, sizeof(*lhs))', '__CPROVER_is_fresh(rhs, sizeof(*rhs))'
+    MKL = '  smt::rational a = mk_rat(S[12], S[13]);\n'
+    for op, c in (('add', '+'), ('sub', '-'), ('mul', '*')):
+        pre = [FR_LHS + ' && ' + FR_RHS, '__exc == 0', 'lin_shape(*rhs) && in_range_lin(*rhs) && wf_lin(*rhs)', 'in_range(*lhs) && wf_rat(*lhs) && !sp_is_inf(*lhs)',
+               'sp_lin_rec(130, *rhs) && xt_rec(12, lhs->num) && xt_rec(13, lhs->den) && ' + REC_GV]
+        if op == 'add':
+            post = [('coefficient', 'sp_rat_identical(sp_coeff2(%s, xt_gv), sp_coeff(*rhs, xt_gv))' % LR), ('constant_term', 'rat_is_sum(%s.known_term, *lhs, rhs->known_term)' % LR)]
+            rchk = 'lin_all_vars(r, b, b, [&](smt::var v) { return coeff(r, v) == coeff(b, v); }) && rat_is_sum(view(r.known_term), view(a), view(b.known_term))'
+        elif op == 'sub':
+            post = [('coefficient', 'sp_rat_identical(sp_coeff2(%s, xt_gv), sp_neg(sp_coeff(*rhs, xt_gv)))' % LR), ('constant_term', 'rat_is_diff(%s.known_term, *lhs, rhs->known_term)' % LR)]
+            rchk = 'lin_all_vars(r, b, b, [&](smt::var v) { return coeff(r, v) == -coeff(b, v); }) && rat_is_diff(view(r.known_term), view(a), view(b.known_term))'
+        else:
+            post = [('coefficient', 'rat_is_prod(sp_coeff2(%s, xt_gv), *lhs, sp_coeff(*rhs, xt_gv))' % LR), ('constant_term', 'rat_is_prod(%s.known_term, *lhs, rhs->known_term)' % LR)]
+            rchk = 'lin_all_vars(r, b, b, [&](smt::var v) { return rat_is_prod(view(coeff(r, v)), view(a), view(coeff(b, v))); }) && rat_is_prod(view(r.known_term), view(a), view(b.known_term))'
+        J('op_%s__rational__lin' % op, 'smt_op_%s__rational__lin' % op,
+          Contract(requires=pre, ensures=[NOEXC, ('wf', 'wf_lin_res(%s, %d)' % (LR, 2 * LMAX))] + post, assigns='__exc'),
+          replay=MKL + MKB + '  smt::lin r = a %s b;\n  ok = lin_coeffs_wf(r) && %s; observed = show(r); required = show(a) + " %s (" + show(b) + ") coefficient-wise";\n' % (c, rchk, c))
+
+    # ---- unary minus
+    J('op_neg', 'smt_lin_op_sub',
+      Contract(requires=[FR_SELF, '__exc == 0', WFL_SELF, 'sp_lin_rec(100, *self) && ' + REC_GV],
+               ensures=[NOEXC, ('wf', 'wf_lin_res(%s, %d)' % (LR, 2 * LMAX)),
+                        ('coefficient', 'sp_rat_identical(sp_coeff2(%s, xt_gv), sp_neg(sp_coeff(*self, xt_gv)))' % LR),
+                        ('constant_term', 'sp_rat_identical(%s.known_term, sp_neg(self->known_term))' % LR)], assigns='__exc'),
+      replay=MKA + '  smt::lin r = -a;\n  ok = lin_all_vars(r, a, a, [&](smt::var v) { return coeff(r, v) == -coeff(a, v); }) && r.known_term == -a.known_term; observed = show(r); required = "-(" + show(a) + ")";\n')
+
+    # ---- constructors
+    J('ctor', 'smt_lin_ctor', Contract(requires=['__exc == 0', REC_GV], ensures=[('zero', '%s.vars.n == 0 && %s.known_term.num == 0 && %s.known_term.den == 1' % (LR, LR, LR))], assigns='__exc'))
+    J('ctor__rational', 'smt_lin_ctor__rational',
+      Contract(requires=['__CPROVER_is_fresh(known_term, sizeof(*known_term))', '__exc == 0'],
+               ensures=[('value', '%s.vars.n == 0 && sp_rat_identical(%s.known_term, *known_term)' % (LR, LR))], assigns='__exc'))
+    J('ctor__U__rational', 'smt_lin_ctor__U__rational',
+      Contract(requires=['__CPROVER_is_fresh(c, sizeof(*c))', '__exc == 0', REC_GV],
+               ensures=[('coefficient', 'sp_rat_identical(sp_coeff2(%s, xt_gv), xt_gv == v ? *c : sp_of_int(0))' % LR),
+                        ('constant_term', '%s.known_term.num == 0 && %s.known_term.den == 1' % (LR, LR)), ('one_term', '%s.vars.n == 1' % LR)], assigns='__exc'))
